@@ -17,13 +17,13 @@ CHECKS = {
          "The linter models the resource-free subset; object types, intrinsic signatures and matrix aggregates are opaque (counted). Violation kinds are the ones HLSL itself rejects; break/continue outside loops are not typing and not covered. One recorded finding: KF-C03-1 (writes to constant buffer members).",
          "DESIGN.md section 3, C03"),
  "C01": ("translation_validation",
-         "differential execution (property-based + exhaustive small shapes): interpreter of the typed IR vs an independent parser and evaluator of the emitted HLSL text",
-         "Every expression tree with 1-2 (quick) / 1-3 (thorough) operator nodes over the whole operator table on int, float and mixed int/float/uint/bool operands, and generated whole programs of the executable resource-free subset, are compiled for DirectX and Vulkan HLSL. The typed IR is run by an interpreter (RSSL's semantics) and the emitted text is parsed by an independent C-like parser and run by an evaluator with HLSL's rules (literal typing, usual arithmetic conversions, copy-in/copy-out) on 3 boundary argument vectors per function; return value, out/inout parameters and static globals are compared bit-exactly. An exhaustive aliasing table (parameter modes x two-statement bodies x arguments drawn from two locals and a static) covers copy-in / copy-out when arguments alias. Every operator tree is additionally run on 8 crafted operand rows (cancellation, absorption, overflow, INT_MIN / -1, shift counts of 32). Generated programs include struct methods, nested namespaces and implicit conversions. 67 000 programs quick, about 1.5 M thorough.",
+         "differential execution (property-based + exhaustive small shapes + coverage-guided libFuzzer stage in the thorough tier): interpreter of the typed IR vs an independent parser and evaluator of the emitted HLSL text",
+         "Every expression tree with 1-2 (quick) / 1-3 (thorough) operator nodes over the whole operator table on int, float and mixed int/float/uint/bool operands, and generated whole programs of the executable resource-free subset, are compiled for DirectX and Vulkan HLSL. The typed IR is run by an interpreter (RSSL's semantics) and the emitted text is parsed by an independent C-like parser and run by an evaluator with HLSL's rules (literal typing, usual arithmetic conversions, copy-in/copy-out) on 3 boundary argument vectors per function; return value, out/inout parameters and static globals are compared bit-exactly. An exhaustive aliasing table (parameter modes x two-statement bodies x arguments drawn from two locals and a static) covers copy-in / copy-out when arguments alias. Every operator tree is additionally run on 8 crafted operand rows (cancellation, absorption, overflow, INT_MIN / -1, shift counts of 32). Generated programs include struct methods, nested namespaces and implicit conversions. 73 000 programs quick, about 1.2 M thorough, followed by a 300 s libFuzzer campaign over mutated generated programs with the same differential oracle in the target.",
          "Per-program validation by execution on sampled argument vectors, not a proof of equivalence. Trusted: harness/src/irsem.rs, ctext.rs, csem.rs and the shared value library vals.rs (which fixes one meaning for operations HLSL leaves undefined). Matrices and resources are outside the executable subset.",
          "DESIGN.md section 3, C01"),
  "C02": ("translation_validation",
-         "differential execution (property-based + exhaustive small shapes): interpreter of the typed IR vs an independent parser and evaluator of the emitted Metal text under C++ rules",
-         "As C01 for the Metal target: reference parameters alias, calls must match a declared function by arity and tag type, brace initialisation zero-fills, metal:: builtins are mapped by a per-dialect table, implicit parameters for static globals are bound by name and their final values compared with the interpreter's globals, out/inout parameters go through the emitted trampolines. Text that is not meaningful as C++ is a violation. The aliasing table and the crafted operand rows of C01 are run for Metal as well. 43 000 programs quick, about 0.9 M thorough.",
+         "differential execution (property-based + exhaustive small shapes + coverage-guided libFuzzer stage in the thorough tier): interpreter of the typed IR vs an independent parser and evaluator of the emitted Metal text under C++ rules",
+         "As C01 for the Metal target: reference parameters alias, calls must match a declared function by arity and tag type, brace initialisation zero-fills, metal:: builtins are mapped by a per-dialect table, implicit parameters for static globals are bound by name and their final values compared with the interpreter's globals, out/inout parameters go through the emitted trampolines. Text that is not meaningful as C++ is a violation. The aliasing table and the crafted operand rows of C01 are run for Metal as well. 49 000 programs quick, about 0.9 M thorough, followed by a 300 s libFuzzer campaign over mutated generated programs with the same differential oracle in the target.",
          "Per-program validation by execution on sampled argument vectors. Static globals are initialised by a pipeline entry point that no-pipeline mode does not emit, so their initial values come from the IR..",
          "DESIGN.md section 3, C02"),
  "C12": ("exploration",
@@ -32,13 +32,13 @@ CHECKS = {
          "Trusted: the reference expander in harness/src/c12.rs. Function-like macro names always carry a complete argument list (bare names next to parentheses are where the recorded deviation KF-C12-1 lives); inputs whose expansion explodes under KF-C12-1 are predicted with a model of the deviation and excluded (counted).",
          "DESIGN.md section 3, C12"),
  "C09": ("exploration",
-         "exhaustive enumeration (depth-2 operator pairs) + property-based testing: print/parse round-trip",
-         "Syntax trees are produced by parsing explicitly grouped text, so every tree shape over the operator set is reachable: all 3 300 (outer, inner, side) operator combinations at depth 2 exhaustively, random expression trees to depth 6 over every unary/binary/ternary/postfix/call/template-call/cast/subscript/member/sizeof/constructor node and 37 literal spellings in 6 syntactic positions, whole generated programs, the repository's inputs, and the exporters' own output. Each tree is printed for HLSL and for MSL, parsed again and compared with the original after removing locations. 38 000 trees quick, 1.1 M thorough.",
+         "exhaustive enumeration (depth-2 operator pairs) + property-based testing + coverage-guided libFuzzer stage in the thorough tier: print/parse round-trip",
+         "Syntax trees are produced by parsing explicitly grouped text, so every tree shape over the operator set is reachable: all 3 300 (outer, inner, side) operator combinations at depth 2 exhaustively, random expression trees to depth 6 over every unary/binary/ternary/postfix/call/template-call/cast/subscript/member/sizeof/constructor node and 37 literal spellings in 6 syntactic positions, whole generated programs, the repository's inputs, and the exporters' own output. Each tree is printed for HLSL and for MSL, parsed again and compared with the original after removing locations. 45 000 trees quick, 1.1 M thorough, followed by a 300 s libFuzzer campaign with the round trip as oracle in the target.",
          "Trees come from the parser (a shape the parser cannot build, such as a negative literal node, is not covered). Unprintable (ambiguous) trees are counted and skipped. One recorded finding: KF-C09-1 (shared root cause with KF-C04-1).",
          "DESIGN.md section 3, C09"),
  "C08": ("exploration",
-         "fuzzing / property-based testing under supervised worker processes (panic, process death, CPU budget)",
-         "Byte strings, token soups, bracket soups, nested parentheses / blocks / cast-like prefixes, generated programs (valid and with 1-3 structural mutations incl. extreme literals and unterminated constructs), mutated copies of the repository's own inputs and a 45-entry catalogue of unsupported or unusual constructs (also crossed with API defines) are compiled for 5 targets x {all, named, no-pipeline} x layout validation x API defines inside supervised worker processes. A panic (caught, keyed by source file + message), a dead worker (stack overflow, abort), an empty diagnostic or CPU time beyond 2 s per 4 KB (re-run alone before reporting) is a violation. Constant expressions with boundary operands in six constant positions and every binary operator on every pair of 45 boundary constants (73 000 programs, exhaustive) exercise the folding paths. 119 000 inputs quick, 1.5 M thorough.",
+         "property-based testing under supervised worker processes (panic, process death, CPU budget) + coverage-guided libFuzzer campaign in the thorough tier",
+         "Byte strings, token soups, bracket soups, nested parentheses / blocks / cast-like prefixes, generated programs (valid and with 1-3 structural mutations incl. extreme literals and unterminated constructs), mutated copies of the repository's own inputs and a 45-entry catalogue of unsupported or unusual constructs (also crossed with API defines) are compiled for 5 targets x {all, named, no-pipeline} x layout validation x API defines inside supervised worker processes. A panic (caught, keyed by source file + message), a dead worker (stack overflow, abort), an empty diagnostic or CPU time beyond 2 s per 4 KB (re-run alone before reporting) is a violation. Constant expressions with boundary operands in six constant positions and every binary operator on every pair of 45 boundary constants (73 000 programs, exhaustive) exercise the folding paths. 147 000 inputs quick, 1.8 M thorough, followed by a 600 s libFuzzer campaign (fork mode, all cores) whose artifacts are judged again by this check.",
          "Built with debug assertions and overflow checks on (as the repository's cargo test). One recorded finding: KF-C08-1 (slot arithmetic overflow for gigantic resource arrays). Inputs above about 6 KB and memory exhaustion are not explored.",
          "DESIGN.md section 3, C08"),
  "C05": ("exploration",
@@ -67,8 +67,8 @@ CHECKS = {
          "Back-end diagnostics are recognised by their 'hlsl generate/format' / 'metal generate/format' prefix.",
          "DESIGN.md section 3, C18"),
  "C04": ("exploration",
-         "property-based testing: round-trip (compile o compile fixpoint) over generated programs and the third-party corpus",
-         "For every generated program (typed generator over structs, enums, templates, overloads, statics, arrays, all statement and operator forms) and every one of the 31 third-party corpus entry points, the emitted DirectX HLSL is compiled again: it must be accepted, reproduce itself byte for byte and keep every binding. 4 000 generated programs quick, 100 000 thorough; failures are shrunk on the generator's choice sequence.",
+         "property-based testing + coverage-guided libFuzzer stage in the thorough tier: round-trip (compile o compile fixpoint) over generated programs and the third-party corpus",
+         "For every generated program (typed generator over structs, enums, templates, overloads, statics, arrays, all statement and operator forms) and every one of the 31 third-party corpus entry points, the emitted DirectX HLSL is compiled again: it must be accepted, reproduce itself byte for byte and keep every binding. 7 000 programs quick, 160 000 thorough, followed by a 300 s libFuzzer campaign with the fixpoint oracle in the target; failures of the generated parts are shrunk on the generator's choice sequence.",
          "Programs rejected by the front end are skipped and counted. One recorded finding (KF-C04-1, template-call ambiguity of `a < b && c > (d)`) is suppressed by signature.",
          "DESIGN.md section 3, C04"),
  "C06": ("exploration",
@@ -87,8 +87,8 @@ CHECKS = {
          "Trusted: the reference evaluator and RSSL's operand-typing order as restated in harness/src/c13.rs. Results HLSL leaves open (out-of-range float->int, INT_MIN / -1) are only checked for no abort. half is held in single precision as the compiler does.",
          "DESIGN.md section 3, C13"),
  "C10": ("exploration",
-         "property-based testing: span-tiling invariant, exact u128 integer oracle, correctly-rounded float oracle (Rust str::parse), output round-trip",
-         "Random token soups with every trivia kind (comments, CRLF, backslash splices) are lexed and the token spans must tile the input exactly, with separated pieces coming back one token each and error positions inside the file; integer spellings (dec/hex/octal x suffixes, biased to 2^31..2^64+1, up to 25 digits) must carry their exact value or be rejected when >= 2^64; float spellings (<= 20 significant digits, exponents -330..310, every suffix) must have the bits of the correctly rounded double (narrowed once for f/h); each literal compiled into `T f(){return lit;}` must re-read from the emitted HLSL with the same value and type. About 1 M cases quick, 19 M thorough.",
+         "property-based testing + coverage-guided libFuzzer stage in the thorough tier: span-tiling invariant, exact u128 integer oracle, correctly-rounded float oracle (Rust str::parse), output round-trip",
+         "Random token soups with every trivia kind (comments, CRLF, backslash splices) are lexed and the token spans must tile the input exactly, with separated pieces coming back one token each and error positions inside the file; integer spellings (dec/hex/octal x suffixes, biased to 2^31..2^64+1, up to 25 digits) must carry their exact value or be rejected when >= 2^64; float spellings (<= 20 significant digits, exponents -330..310, every suffix) must have the bits of the correctly rounded double (narrowed once for f/h); each literal compiled into `T f(){return lit;}` must re-read from the emitted HLSL with the same value and type. About 1 M cases quick, 19 M thorough, followed by a 300 s libFuzzer campaign with the tiling oracle in the target.",
          "Trusted: Rust's str::parse::<f64>/<f32> are correctly rounded. L-suffixed integers in [2^63,2^64) and the 0X prefix are outside the checked domain.",
          "DESIGN.md section 3, C10"),
  "C19": ("exploration",
